@@ -214,7 +214,10 @@ class World:
             if op.get("http"):
                 code, body = self.http(conn, "/prepare", q)
             else:
-                code, body = 200, self.driver.prepare(q, self.addr(conn))
+                try:
+                    code, body = 200, self.driver.prepare(q, self.addr(conn))
+                except Exception as ex:  # noqa: BLE001
+                    code, body = 500, {"status": "raised " + type(ex).__name__}
             return {"http": code, "status": (body or {}).get("status"), "prep": self.prepared()}
         assert kind == "write"
         q = {"characteristics": []}
@@ -236,8 +239,11 @@ class World:
         if op.get("http"):
             code, body = self.http(conn, "/characteristics", q)
         else:
-            body = self.driver.set_characteristics(q, self.addr(conn))
-            code = 204 if body is None else 207
+            try:
+                body = self.driver.set_characteristics(q, self.addr(conn))
+                code = 204 if body is None else 207
+            except Exception as ex:  # noqa: BLE001  (dispatch would answer 500)
+                body, code = {"raised": type(ex).__name__}, 500
         return {
             "http": code, "body": body, "log": self.log, "before": before, "after": self.values(),
             "prep": self.prepared(),
@@ -620,6 +626,9 @@ def judge_write(ctx: Ctx, script: dict, idx: int, ops: List[dict], obs: dict, wo
     by_id: Dict[Tuple[int, int], List[dict]] = {}
     for it in items:
         by_id.setdefault((it.get("aid"), it.get("iid")), []).append(it)
+    if http == 500:
+        bad("C10:write-request-aborted", f"the write request was aborted by an exception (HTTP 500, {body!r}): no status per characteristic")
+        return
     if (http == 204) != (body is None) or http not in (204, 207):
         bad("C10:http-status-body-mismatch", f"HTTP {http} with body {body!r}")
         return
